@@ -182,9 +182,27 @@ impl Shadow {
 macro_rules! viol {
     ($s:expr, $prop:expr, $msg:expr) => {{
         let m: String = $msg;
-        if $s.violations.len() < 50 {
+        // after a captured panic the allocator's state is whatever the unwinding left behind:
+        // the state oracles say nothing about the rest of that history (the line-by-line
+        // comparison with the model goes on)
+        if $s.violations.len() < 50 && !$s.poisoned {
             $s.violations.push(Violation { prop: $prop, msg: m, line: $s.line });
         }
+    }};
+}
+/// a call panicked: a C09 violation if the configuration is one the property quantifies over
+/// (the repository's policies; the generator's policies with `Invalid` class pairs are only
+/// compared with the model), and the end of the state oracles for this allocator instance
+macro_rules! panicked {
+    ($s:expr, $msg:expr) => {{
+        let m: String = $msg;
+        let in_scope = $s.inst.as_ref().map(|i| i.cfg.pol.never_invalid()).unwrap_or(true);
+        if in_scope {
+            viol!($s, "C09", m);
+        } else {
+            $s.cov.hit("panic", "out-of-scope-policy", "");
+        }
+        $s.poisoned = true;
     }};
 }
 
@@ -255,6 +273,8 @@ pub struct Engine {
     pub held: Vec<(usize, usize)>,
     /// first line index of the current instance (replay prefix)
     pub panics: usize,
+    /// a call of the current instance panicked
+    pub poisoned: bool,
 }
 
 fn parse_opt(s: &str) -> Option<Option<usize>> {
@@ -276,6 +296,7 @@ impl Engine {
             lower_only: false,
             held: vec![],
             panics: 0,
+            poisoned: false,
         }
     }
     pub fn parse_pol(s: &str) -> Option<Pol> {
@@ -417,6 +438,7 @@ impl Engine {
                     Bufs::for_cfg(&cfg)
                 };
                 self.dead = false;
+                self.poisoned = false;
                 self.lower_only = false;
                 self.just_drained = false;
                 self.held.clear();
@@ -449,7 +471,7 @@ impl Engine {
                     Err(p) => {
                         self.shadow = None;
                         self.panics += 1;
-                        viol!(self, "C09", format!("LLFree::new panicked: {p}"));
+                        panicked!(self, format!("LLFree::new panicked: {p}"));
                         format!("panic {p}")
                     }
                 }
@@ -650,7 +672,7 @@ impl Engine {
                     Err(p) => {
                         self.cov.hit("get", "panic", p);
                         self.panics += 1;
-                        viol!(self, "C09", format!("get panicked: {p} ({ws:?})"));
+                        panicked!(self, format!("get panicked: {p} ({ws:?})"));
                         format!("panic {p}")
                     }
                 };
@@ -747,7 +769,7 @@ impl Engine {
                     Err(p) => {
                         self.cov.hit("put", "panic", p);
                         self.panics += 1;
-                        viol!(self, "C09", format!("put panicked: {p} ({ws:?})"));
+                        panicked!(self, format!("put panicked: {p} ({ws:?})"));
                         format!("panic {p}")
                     }
                 };
@@ -771,7 +793,7 @@ impl Engine {
                     Ok(()) => "ok".to_string(),
                     Err(p) => {
                         self.panics += 1;
-                        viol!(self, "C09", format!("drain panicked: {p}"));
+                        panicked!(self, format!("drain panicked: {p}"));
                         format!("panic {p}")
                     }
                 };
@@ -873,7 +895,7 @@ impl Engine {
                     Err(p) => {
                         self.cov.hit("change", "panic", p);
                         self.panics += 1;
-                        viol!(self, "C09", format!("change_tree panicked: {p} ({ws:?})"));
+                        panicked!(self, format!("change_tree panicked: {p} ({ws:?})"));
                         format!("panic {p}")
                     }
                 };
@@ -914,7 +936,7 @@ impl Engine {
                         stats_str(&s)
                     }
                     Err(p) => {
-                        viol!(self, "C09", format!("stats panicked: {p}"));
+                        panicked!(self, format!("stats panicked: {p}"));
                         format!("panic {p}")
                     }
                 }
@@ -951,7 +973,7 @@ impl Engine {
                         tstats_str(&s)
                     }
                     Err(p) => {
-                        viol!(self, "C09", format!("tree_stats panicked: {p}"));
+                        panicked!(self, format!("tree_stats panicked: {p}"));
                         format!("panic {p}")
                     }
                 }
@@ -991,7 +1013,7 @@ impl Engine {
                     }
                     Err(p) => {
                         if frame < frames {
-                            viol!(self, "C09", format!("stats_at({frame},{order}) panicked: {p}"));
+                            panicked!(self, format!("stats_at({frame},{order}) panicked: {p}"));
                         }
                         format!("panic {p}")
                     }
@@ -1088,7 +1110,7 @@ impl Engine {
                         err_str(*e).into()
                     }
                     Err(p) => {
-                        viol!(self, "C09", format!("lower get panicked: {p}"));
+                        panicked!(self, format!("lower get panicked: {p}"));
                         format!("panic {p}")
                     }
                 };
@@ -1120,7 +1142,7 @@ impl Engine {
                         err_str(*e).into()
                     }
                     Err(p) => {
-                        viol!(self, "C09", format!("lower put panicked: {p}"));
+                        panicked!(self, format!("lower put panicked: {p}"));
                         format!("panic {p}")
                     }
                 };
@@ -1136,7 +1158,7 @@ impl Engine {
                 match r {
                     Ok(()) => "ok".into(),
                     Err(p) => {
-                        viol!(self, "C09", format!("recover panicked: {p}"));
+                        panicked!(self, format!("recover panicked: {p}"));
                         format!("panic {p}")
                     }
                 }
